@@ -325,6 +325,73 @@ LogicAlias(p, xor, x, y) ==
       ops |-> << Wt(x, "x"), Wt(y, "y"),
                  [op |-> "logic", a |-> "x", b |-> "y", pairs |-> p, xor |-> xor, out |-> "o"] >>
               \o Overrides(honest, aliased, {7, 8})]
+\* ---- the same aliases as PROGRAMS (compile the public component, prove an instance
+\* composed from the seams with explicit adversarial witnesses): every downstream
+\* witness is then generated by the IMPLEMENTATION from the adversarial (high, low)
+\* with its own constants, so the adversary stays consistent even when the constants
+\* or the tail of the layout have drifted.  Shape mismatch => InvalidCircuitSize =>
+\* no verdict (never an alarm).
+RC(w, n) == [op |-> "range_check", w |-> w, bits |-> n]
+\* `skip` leaves one sub-block out: an implementation whose layout lacks that block
+\* (e.g. a range check "optimised away") is then attacked with a matching shape; on a
+\* layout that has the block the variant is an InvalidCircuitSize no-op
+BindB(inp, acc, hreg, rreg, h, n, skip) ==
+  << Wt(h, hreg) >>
+  \o (IF skip = "rc-high" THEN << >> ELSE << RC(hreg, 255 - n) >>)
+  \o << [op |-> "gate_add", q |-> [l |-> P2(n), r |-> One], w |-> <<hreg, acc>>, out |-> rreg],
+        [op |-> "assert_equal", a |-> rreg, b |-> inp] >>
+  \o (IF skip = "canonical" THEN << >>
+      ELSE << [op |-> "assert_canonical_truncation", high |-> hreg, low |-> acc, n |-> n] >>)
+TruncAliasB(n, x, skip) ==
+  LET y == BigAdd(x, R)
+  IN [g |-> "truncate-alias-seams", n |-> n, x |-> x, skip |-> skip, expect |-> NotOther(<< BigLow(x, n) >>),
+      ops |-> << Wt(x, "x"), [op |-> "truncate", w |-> "x", n |-> n, out |-> "t"] >>,
+      prove_ops |-> << Wt(x, "x"), Wt(BigLow(y, n), "l") >>
+                    \o (IF skip = "rc-low" THEN << >> ELSE << RC("l", n) >>)
+                    \o BindB("x", "l", "h", "rec", BigMod(BigShr(y, n), R), n, skip)
+                    \o << [op |-> "ret", w |-> <<"l">>] >>]
+Skips == << "none", "rc-low", "rc-high", "canonical" >>
+\* small inputs (alias high part small) and inputs close to the modulus (alias high part
+\* beyond 2^(255-n): only the range check of the high part rejects those)
+AliasXL == << BInt(5), BigLow(Rnd(81), 250), BSub(M1, One), BSub(BSub(M1, BInt(3)), P2(200)) >>
+
+LogicSelS(xor) == IF xor THEN << Zero, Zero, Zero, Zero, Zero, M1, Zero, Zero, M1, Zero, Zero >>
+                  ELSE << Zero, Zero, Zero, Zero, Zero, One, Zero, Zero, One, Zero, Zero >>
+NoSelS == << Zero, Zero, Zero, Zero, Zero, Zero, Zero, Zero, Zero, Zero, Zero >>
+DigitAt(v, kk) == BigBit(v, 2 * kk) + 2 * BigBit(v, 2 * kk + 1)
+AndDg(a, b) == (IF a \in {1, 3} /\ b \in {1, 3} THEN 1 ELSE 0) + (IF a \in {2, 3} /\ b \in {2, 3} THEN 2 ELSE 0)
+XorDg(a, b) == (IF (a \in {1, 3}) # (b \in {1, 3}) THEN 1 ELSE 0) + (IF (a \in {2, 3}) # (b \in {2, 3}) THEN 2 ELSE 0)
+Nm(pfx, j) == pfx \o ToString(j)
+\* logic rows with explicit accumulators taken from the digits of xa (an integer) and yb
+RECURSIVE LogicRowsB(_, _, _, _, _, _, _, _)
+LogicRowsB(xa, yb, p, xor, j, la, ra, oa) ==
+  IF j > p THEN << [op |-> "raw", sel |-> NoSelS,
+                    w |-> << IF p = 0 THEN 0 ELSE Nm("a", p), IF p = 0 THEN 0 ELSE Nm("b", p), 0,
+                             IF p = 0 THEN 0 ELSE Nm("d", p) >>] >>
+  ELSE LET kk == p - j
+           lq == DigitAt(xa, kk)
+           rq == DigitAt(yb, kk)
+           oq == IF xor THEN XorDg(lq, rq) ELSE AndDg(lq, rq)
+           la2 == BAdd(BMul(BInt(4), la), BInt(lq))
+           ra2 == BAdd(BMul(BInt(4), ra), BInt(rq))
+           oa2 == BAdd(BMul(BInt(4), oa), BInt(oq))
+           prev(pfx) == IF j = 1 THEN 0 ELSE Nm(pfx, j - 1)
+       IN << Wt(la2, Nm("a", j)), Wt(ra2, Nm("b", j)), Wt(BInt(lq * rq), Nm("c", j)), Wt(oa2, Nm("d", j)),
+             [op |-> "raw", sel |-> LogicSelS(xor), w |-> << prev("a"), prev("b"), Nm("c", j), prev("d") >>] >>
+          \o LogicRowsB(xa, yb, p, xor, j + 1, la2, ra2, oa2)
+LogicAliasB(p, xor, x, y, skip) ==
+  LET xa == BigAdd(x, R)
+      n == 2 * p
+  IN [g |-> "logic-alias-seams", n |-> p, xor |-> xor, x |-> x, skip |-> skip,
+      expect |-> NotOther(<< BitwiseRec(x, y, n, xor, 0) >>),
+      ops |-> << Wt(x, "x"), Wt(y, "y"),
+                 [op |-> "logic", a |-> "x", b |-> "y", pairs |-> p, xor |-> xor, out |-> "o"] >>,
+      prove_ops |-> << Wt(x, "x"), Wt(y, "y") >>
+                    \o LogicRowsB(xa, y, p, xor, 1, Zero, Zero, Zero)
+                    \o BindB("x", Nm("a", p), "hx", "recx", BigMod(BigShr(xa, n), R), n, skip)
+                    \o BindB("y", Nm("b", p), "hy", "recy", BigShr(y, n), n, skip)
+                    \o << [op |-> "ret", w |-> << Nm("d", p) >>] >>]
+
 \* the split moved by one unit: low + 2^n, high - 1 (all other witnesses regenerated)
 TruncShift(n, x) ==
   LET honest == C!Truncate(InState(x), 7, n).st.vals
@@ -455,7 +522,12 @@ AllCases ==
     [] Family = "decomposition-alias" -> AliasCases
     [] Family = "shape" -> ShapeCases
     [] Family = "truncate-alias" -> TruncAliasCases \o TruncShiftCases
+         \o Flat(Map(IF Quick THEN <<1, 64, 128, 192, 254>> ELSE [i \in 1..254 |-> i],
+                     LAMBDA n : Flat(Map(AliasXL, LAMBDA x : Map(Skips, LAMBDA sk : TruncAliasB(n, x, sk))))))
     [] Family = "logic-alias" -> LogicAliasCases
+         \o Flat(Map(IF Quick THEN <<1, 32, 64, 96, 127>> ELSE [i \in 1..127 |-> i],
+                     LAMBDA p : Flat(Map(<<TRUE, FALSE>>, LAMBDA o : Flat(Map(AliasXL, LAMBDA x :
+                       Map(<< "none", "rc-high", "canonical" >>, LAMBDA sk : LogicAliasB(p, o, x, Rnd(82), sk))))))))
     [] Family = "fixed-digits" -> DigitCases
     [] Family = "range-closing" -> RangeClosingCases
     [] Family = "truncate" -> TruncCases
